@@ -256,7 +256,9 @@ def check_wrappers(xs, ys):
     e2 = pearson_r2_exact(xs, ys)
     try:
         if n <= 2:
-            if float(lf.r2_points(pts)) != 1.0:
+            # two points with distinct x and distinct y are perfectly correlated; for fewer points, or a constant
+            # coordinate, the Pearson correlation is undefined and the property says nothing
+            if e2 is not None and not tol_ok(float(lf.r2_points(pts)), 1.0, 1e-12):
                 out.append(Failure('linear_fit.r2_points', 'short-curve-not-1', key0, dict(base, wrapper='r2'), '', (n, 0)))
         elif e2 is not None:
             got = float(lf.r2(x, y))
